@@ -909,3 +909,23 @@ CASES += [
          new="""                if *l == lit {
                     // skip over this whole clause"""),
 ]
+
+CASES += [
+    dict(name="se3-node-hash-weights-crossed", file=RB, rule="SE", props=["C11"], expect="BddNode::semantic_hash:SE3",
+         old="""        self.low.cached_semantic_hash(order, map) * (*low_w)
+            + self.high.cached_semantic_hash(order, map) * (*high_w)""",
+         new="""        self.low.cached_semantic_hash(order, map) * (*high_w)
+            + self.high.cached_semantic_hash(order, map) * (*low_w)"""),
+    dict(name="se3-true-hashes-to-zero", file=RB, rule="SE", props=["C11"], expect="BddPtr::cached_semantic_hash:SE3",
+         old="""            PtrTrue => FiniteField::new(1),
+            PtrFalse => FiniteField::new(0),
+            Reg(node) => node.cached_semantic_hash(order, map),""",
+         new="""            PtrTrue => FiniteField::new(0),
+            PtrFalse => FiniteField::new(1),
+            Reg(node) => node.cached_semantic_hash(order, map),"""),
+    dict(name="se3-node-hash-commuted-ok", file=RB, rule="SE", props=["C11"], expect=None,
+         old="""        self.low.cached_semantic_hash(order, map) * (*low_w)
+            + self.high.cached_semantic_hash(order, map) * (*high_w)""",
+         new="""        (*high_w) * self.high.cached_semantic_hash(order, map)
+            + (*low_w) * self.low.cached_semantic_hash(order, map)"""),
+]
